@@ -293,7 +293,11 @@ func (t *Thread) runFrom(fr *Frame, blk *ssa.BasicBlock) (pan *goPanic) {
 		prev = blk
 		if next != nil && next.Index <= blk.Index {
 			fr.visits[next]++
-			if fr.visits[next] > t.ex.unwind {
+			limit := t.ex.unwind
+			if t.ex.unwindFn != "" && !strings.Contains(fr.fn.String(), t.ex.unwindFn) {
+				limit = t.ex.H.Opt.Unwind // the harness bound applies to the named function only
+			}
+			if fr.visits[next] > limit {
 				t.ex.unwindOverrun(fr.fn.String())
 			}
 		}
@@ -303,6 +307,11 @@ func (t *Thread) runFrom(fr *Frame, blk *ssa.BasicBlock) (pan *goPanic) {
 }
 
 func (ex *Exec) unwindOverrun(fn string) {
+	if strings.HasPrefix(ex.unwindAs, "#cut") {
+		// the harness declared that longer runs of this loop are outside the claim (e.g. repeated random collisions)
+		ex.H.noteOutside(fmt.Sprintf("paths needing more than %d iterations of a loop in %s are cut", ex.unwind, shortFn(fn)))
+		ex.end("unwind-cut")
+	}
 	if ex.unwindAs != "" {
 		ex.H.incObl()
 		ex.H.recordViolationPC(ex, ex.unwindAs, fmt.Sprintf("loop in %s exceeds %d iterations", fn, ex.unwind))
